@@ -22,6 +22,7 @@ import (
 	"regexp"
 	"strconv"
 	"strings"
+	"time"
 	"unicode/utf8"
 
 	"github.com/benhoyt/goawk/interp"
@@ -249,7 +250,7 @@ func oneCut(n int) []int {
 
 func genCases(o hx.Opts, r *hx.Rand, ks []rsKind) []kase {
 	thorough := o.Tier == "thorough"
-	exhLen, rndLen, rndCount, longCount := 4, 8, 14, 6
+	exhLen, rndLen, rndCount, longCount := 4, 8, 10, 5
 	if thorough {
 		exhLen, rndLen, rndCount, longCount = 5, 12, 6, 30
 	}
@@ -340,7 +341,9 @@ func genCases(o hx.Opts, r *hx.Rand, ks []rsKind) []kase {
 			add(k, d, c, false, fmt.Sprintf("%d-empty-reads", z))
 		}
 		// 5. around the 64 KiB buffer edge: a long first record, separator text across the edge
-		if len(k.edge) > 0 {
+		bigQuick := map[string]bool{"newline": true, "byte:,": true, "blank": true, "re:é": true, "re:x+": true,
+			"re:ab|abcd": true, `re:\n\n+`: true, "re:a..d|b": true}
+		if len(k.edge) > 0 && (thorough || bigQuick[k.name]) {
 			for ei, e := range k.edge {
 				if !thorough && ei > 0 {
 					break
@@ -656,7 +659,14 @@ func main() {
 		k := reKind("re:random", re, []string{"a", "b", "x", "\n", "é"}, nil)
 		ks = append(ks, k)
 	}
+	t0 := time.Now()
+	lap := func(what string) {
+		if os.Getenv("C07_TIMING") != "" {
+			fmt.Fprintf(os.Stderr, "%s %v\n", what, time.Since(t0))
+		}
+	}
 	cases := genCases(o, r, ks)
+	lap("gen")
 
 	// implementation
 	results := make([]result, len(cases))
@@ -664,6 +674,7 @@ func main() {
 		results[i] = runImpl(k.kind.rs, k.data, k.cuts, k.lastEOF)
 	}
 
+	lap("impl")
 	// correspondence
 	lines := make([]string, len(cases))
 	for i, k := range cases {
@@ -705,6 +716,7 @@ func main() {
 		}
 	}
 
+	lap("model")
 	// search oracle: the reference is the delivery in one read (bufio cuts it at its 64 KiB buffer)
 	refs := map[string]result{}
 	for i, k := range cases {
@@ -743,6 +755,7 @@ func main() {
 			}
 		}
 	}
+	lap("search")
 	rep.Write(o.Out)
 }
 
